@@ -74,3 +74,72 @@ Proof.
     apply mul_zero_is_zero; [ assumption | apply sub_self_is_zero; assumption ]. }
   split; [ exact Z | unfold inverseF; rewrite Z; reflexivity ].
 Qed.
+
+(* ---- general cancellation through real values; columns 1 = 3 ---- *)
+Notation rnd64 := (round radix2 (SpecFloat.fexp 53 1024) ZnearestE).
+Lemma add_cancel (p q : f64) : is_finite p = true -> is_finite q = true -> B2R q = - B2R p -> is_zero64 (add64 p q) = true.
+Proof.
+  intros Fp Fq E. unfold add64.
+  generalize (Bplus_correct 53 1024 P53 PE1024 mode_NE p q Fp Fq). rewrite E.
+  replace (B2R p + - B2R p) with 0 by ring. simpl round_mode. rewrite round_0 by auto with typeclass_instances.
+  rewrite Rabs_R0. rewrite Rlt_bool_true by apply bpow_gt_0.
+  intros (H3 & H4 & _). apply finite_zero_is_zero; assumption.
+Qed.
+Lemma zero_B2R (z : f64) : is_zero64 z = true -> is_finite z = true /\ B2R z = 0.
+Proof. destruct z; try discriminate. auto. Qed.
+Lemma abs_B2R_lt (p : f64) : Rabs (B2R p) < bpow radix2 1024.
+Proof. apply abs_B2R_lt_emax. Qed.
+Lemma add_zero_r (p z : f64) : is_finite p = true -> is_zero64 z = true ->
+  is_finite (add64 p z) = true /\ B2R (add64 p z) = B2R p.
+Proof.
+  intros Fp Hz. destruct (zero_B2R z Hz) as (Fz & Ez). unfold add64.
+  generalize (Bplus_correct 53 1024 P53 PE1024 mode_NE p z Fp Fz). rewrite Ez, Rplus_0_r.
+  simpl round_mode. rewrite round_generic by (auto with typeclass_instances; apply generic_format_B2R).
+  rewrite Rlt_bool_true by apply abs_B2R_lt. intros (H1 & H2 & _). auto.
+Qed.
+Lemma mul_opp_B2R (a U W : f64) : is_finite a = true -> is_finite U = true -> is_finite W = true ->
+  B2R W = - B2R U -> is_finite (mul64 a U) = true ->
+  is_finite (mul64 a W) = true /\ B2R (mul64 a W) = - B2R (mul64 a U).
+Proof.
+  intros Fa FU FW E FP. unfold mul64 in *.
+  pose proof (Bmult_correct 53 1024 P53 PE1024 mode_NE a U) as H1.
+  pose proof (Bmult_correct 53 1024 P53 PE1024 mode_NE a W) as H2.
+  rewrite E in H2. replace (B2R a * - B2R U) with (- (B2R a * B2R U)) in H2 by ring.
+  simpl round_mode in *. rewrite round_NE_opp, Rabs_Ropp in H2.
+  destruct (Rlt_bool (Rabs (rnd64 (B2R a * B2R U))) (bpow radix2 1024)) eqn:Eb.
+  - destruct H1 as (R1 & _). destruct H2 as (R2 & F2 & _). rewrite Fa, FW in F2. rewrite R1, R2. auto.
+  - exfalso. rewrite <- is_finite_SF_B2SF in FP. rewrite H1 in FP. unfold binary_overflow in FP. simpl in FP. discriminate.
+Qed.
+Lemma sub_swap (x y : f64) : is_finite x = true -> is_finite y = true -> is_finite (sub64 x y) = true ->
+  is_finite (sub64 y x) = true /\ B2R (sub64 y x) = - B2R (sub64 x y).
+Proof.
+  intros Fx Fy FP. unfold sub64 in *.
+  pose proof (Bminus_correct 53 1024 P53 PE1024 mode_NE x y Fx Fy) as H1.
+  pose proof (Bminus_correct 53 1024 P53 PE1024 mode_NE y x Fy Fx) as H2.
+  replace (B2R y - B2R x) with (- (B2R x - B2R y)) in H2 by ring.
+  simpl round_mode in *. rewrite round_NE_opp, Rabs_Ropp in H2.
+  destruct (Rlt_bool (Rabs (rnd64 (B2R x - B2R y))) (bpow radix2 1024)) eqn:Eb.
+  - destruct H1 as (R1 & _). destruct H2 as (R2 & F2 & _). rewrite R1, R2. auto.
+  - exfalso. destruct H1 as (H1 & _). rewrite <- is_finite_SF_B2SF in FP. rewrite H1 in FP. unfold binary_overflow in FP. simpl in FP. discriminate.
+Qed.
+Lemma neg_zero_is_zero (z : f64) : is_zero64 z = true -> is_zero64 (neg64 z) = true.
+Proof. destruct z; try discriminate. reflexivity. Qed.
+
+(* first and third columns coincide *)
+Theorem det_repeated_outer_float (a b : vecF) :
+  let x := mul64 (v1 b) (v2 a) in let y := mul64 (v1 a) (v2 b) in let U := sub64 x y in
+  is_finite (v0 a) = true -> is_finite (v0 b) = true -> is_finite x = true -> is_finite y = true ->
+  is_finite U = true -> is_finite (mul64 (v0 a) U) = true -> is_finite (mul64 (v1 a) (v2 a)) = true ->
+  is_zero64 (detF (M a b a)) = true /\ inverseF (M a b a) = None.
+Proof.
+  intros x y U Fa Fb Fx Fy FU FP FQ.
+  assert (Z : is_zero64 (detF (M a b a)) = true).
+  { unfold detF, detG, adjG. cbn [v0 v1 v2 c0 c1 c2]. fold x. fold y. fold U.
+    destruct (sub_swap x y Fx Fy FU) as (FW & EW).
+    destruct (mul_opp_B2R (v0 a) U (sub64 y x) Fa FU FW EW FP) as (FQ2 & EQ2).
+    assert (Hz : is_zero64 (mul64 (v0 b) (neg64 (sub64 (mul64 (v1 a) (v2 a)) (mul64 (v1 a) (v2 a))))) = true).
+    { apply mul_zero_is_zero; [ assumption | apply neg_zero_is_zero, sub_self_is_zero; assumption ]. }
+    destruct (add_zero_r _ _ FP Hz) as (F3 & E3).
+    apply add_cancel; [ exact F3 | exact FQ2 | rewrite EQ2, E3; reflexivity ]. }
+  split; [ exact Z | unfold inverseF; rewrite Z; reflexivity ].
+Qed.
